@@ -102,6 +102,8 @@ def check(ctx):
     ctx.attempt(_scrubbers)
     ctx.attempt(_writers)
     ctx.attempt(_headers)
+    from .c06 import ilots_after_l        # 'ilots' is a documented export attribute: it must not raise
+    ctx.attempt(ilots_after_l)
     ctx.attempt(forward.check_all, module_suffixes=('containers.containers', 'tractwriter.tractwriter', 'plssdesc.plssdesc'))
 
 
@@ -110,6 +112,56 @@ def _join_sites(fi):
         if isinstance(c, ast.Call) and isinstance(c.func, ast.Attribute) and c.func.attr == 'join' \
                 and isinstance(c.func.value, ast.Constant) and isinstance(c.func.value.value, str):
             yield c
+
+
+def _resolve_local(fi, e):
+    """a local name with a single assignment stands for its value"""
+    if isinstance(e, ast.Name):
+        vals = [n.value for n in ast.walk(fi.node) if isinstance(n, ast.Assign) and len(n.targets) == 1
+                and isinstance(n.targets[0], ast.Name) and n.targets[0].id == e.id]
+        if len(vals) == 1:
+            return vals[0]
+    return e
+
+
+def _strish_elt(e):
+    if isinstance(e, ast.JoinedStr):
+        return True
+    if isinstance(e, ast.Constant) and isinstance(e.value, str):
+        return True
+    if isinstance(e, ast.Call):
+        d = dotted(e.func) or ''
+        if d in ('str', 'repr', 'format'):
+            return True
+        if isinstance(e.func, ast.Attribute) and e.func.attr in ('format', 'join') and (
+                isinstance(e.func.value, ast.Constant) or _strish_elt(e.func.value)):
+            return True
+    if isinstance(e, ast.BinOp) and isinstance(e.op, (ast.Add, ast.Mod)) and (_strish_elt(e.left) or _strish_elt(e.right)):
+        return True
+    return False
+
+
+def _joined_kind(fi, arg):
+    """'str': every joined element is visibly converted to str; 'raw': the
+    elements of the source are joined as they are; None: not recognised"""
+    arg = _resolve_local(fi, arg)
+    if isinstance(arg, (ast.ListComp, ast.GeneratorExp)):
+        if _strish_elt(arg.elt):
+            return 'str'
+        if isinstance(arg.elt, (ast.Name, ast.Tuple, ast.Subscript)):
+            return 'raw'
+        return None
+    if isinstance(arg, ast.Call) and dotted(arg.func) == 'map' and arg.args:
+        f0 = arg.args[0]
+        if norm(f0) in ('str', 'repr') or (isinstance(f0, ast.Attribute) and f0.attr == 'format'):
+            return 'str'
+        if isinstance(f0, ast.Lambda) and _strish_elt(f0.body):
+            return 'str'
+        return None
+    if isinstance(arg, (ast.Name, ast.Attribute)) or (isinstance(arg, ast.Call) and (dotted(arg.func) or '').split('.')[-1] in (
+            'flatten', 'items', 'keys', 'values', 'list', 'tuple')):
+        return 'raw'
+    return None
 
 
 def _scrubbers(ctx):
@@ -126,22 +178,18 @@ def _scrubbers(ctx):
             gs = [norm(t) for t, pol in guards(j) if pol]
             construct = f"{fi.qualname}: {norm(j)[:60]}"
             if any('dict' in g for g in gs):
-                ok = isinstance(arg, (ast.ListComp, ast.GeneratorExp)) and isinstance(arg.elt, ast.JoinedStr)
-                ctx.check(ok, 'EXC', construct, 'dict cell: f-string per item (always str)',
-                          "dict items are joined without being formatted to str", key=f"EXC|{fi.qualname}|dict-join")
+                kind = _joined_kind(fi, arg)
+                ctx.tri(kind == 'str', kind == 'raw', 'EXC', construct, 'dict cell: every item formatted to str',
+                        "dict items are joined without being formatted to str (TypeError for non-str keys / values)",
+                        key=f"EXC|{fi.qualname}|dict-join")
                 continue
             # list / tuple cell
-            is_comp = isinstance(arg, (ast.ListComp, ast.GeneratorExp))
-            elt_str = is_comp and isinstance(arg.elt, ast.Call) and dotted(arg.elt.func) == 'str'
-            if not elt_str and is_comp and isinstance(arg.elt, ast.JoinedStr):
-                elt_str = True
-            if not is_comp and isinstance(arg, ast.Call) and dotted(arg.func) == 'map' \
-                    and arg.args and norm(arg.args[0]) == 'str':
-                is_comp, elt_str = True, True
-            ctx.check(bool(elt_str), 'EXC', construct, 'elements converted with str()',
-                      f"`{norm(j)}` joins the elements as they are: TypeError for documented attributes whose "
-                      f"elements are not str (ilots: int, *_flag_lines: tuple)",
-                      key=f"EXC|{fi.qualname}|list-join|str", where=common.loc(fi, j))
+            kind = _joined_kind(fi, arg)
+            ctx.tri(kind == 'str', kind == 'raw', 'EXC', construct, 'elements converted with str()',
+                    f"`{norm(j)}` joins the elements as they are: TypeError for documented attributes whose "
+                    f"elements are not str (ilots: int, *_flag_lines: tuple)",
+                    key=f"EXC|{fi.qualname}|list-join|str", where=common.loc(fi, j))
+            arg = _resolve_local(fi, arg)
             it = arg.generators[0].iter if isinstance(arg, (ast.ListComp, ast.GeneratorExp)) else (
                 arg.args[1] if isinstance(arg, ast.Call) and len(arg.args) > 1 else arg)
             prov = flow.provenance(fi.node, it)
